@@ -3,7 +3,7 @@
 Generator: scripts of 1..4 consecutive requests on one session; for request k
 the agent emits a burst built from the true replies to requests <= k, each
 passed through a fault (deliver, drop, duplicate, hold until the next request,
-reorder, rewrite request-id / community / version / msgID / user / engine id,
+reorder, rewrite request-id (incl. ids that differ only above bit 31) / community / version / msgID / user / engine id,
 truncate).
 Oracle (reference FIFO model): the client's socket queue is the concatenation
 of the bursts; call k consumes datagrams in order, each classified by the
@@ -18,8 +18,10 @@ from vlib import refber as rb
 
 LEVEL = "fault_enumeration"
 
-FAULTS = ["deliver", "deliver", "deliver", "dup", "hold", "rid+1", "rid-1", "rid_rand", "rid_other", "community", "version",
-          "msgid", "user", "engine", "truncate", "drop"]
+FAULTS = ["deliver", "deliver", "deliver", "dup", "hold", "rid+1", "rid-1", "rid_rand", "rid_other", "rid_wide", "community", "version",
+          "msgid", "msgid_wide", "user", "engine", "truncate", "drop"]
+# ids that agree with the real one in their low 31/32 bits or differ only in width (5..8 content octets)
+WIDE = [1 << 32, -(1 << 32), 5 << 40, 1 << 31, -(1 << 31), 1 << 62, -(1 << 63), 3 << 32, (1 << 32) + (1 << 31)]
 BASE = (1, 3, 6, 1, 2, 1, 7)
 OTHER_ENGINE = bytes.fromhex("80001f88801122334455")
 
@@ -79,6 +81,13 @@ def emit(cfg, parsed, src, fault, param):
         kw["request_id"] = req["request_id"] - 1
     elif fault == "rid_rand":
         kw["request_id"] = (param * 2654435761) & 0x7FFFFFFF
+    elif fault == "rid_wide":
+        v = req["request_id"] + WIDE[param % len(WIDE)]
+        kw["request_id"] = v if -(1 << 63) <= v < (1 << 63) else req["request_id"] - (1 << 32)
+    elif fault == "msgid_wide":
+        if cfg.version == "v3":
+            v = req["msg_id"] + WIDE[param % len(WIDE)]
+            kw["msg_id"] = v if -(1 << 63) <= v < (1 << 63) else req["msg_id"] - (1 << 32)
     elif fault == "rid_other":
         other = parsed[param % len(parsed)]
         kw["request_id"] = other["request_id"]
